@@ -81,7 +81,7 @@ func VerifC13_Header() {
 	case 13:
 		m = bldIPv4(vr.Choice("payload", 4), 4)
 	case 14:
-		m = bldIPv6(vr.Choice("chain", 8), vr.Choice("payload", 3), 4)
+		m = bldIPv6(vr.Choice("chain", 10), vr.Choice("payload", 3), 4)
 	default:
 		m = bldEthernet(vr.Choice("payload", 5), 4)
 	}
